@@ -1180,7 +1180,7 @@ GENERIC = Spec([("data", rest)])
 
 # per-type proof status reported in the evidence (see lean/Props/C02.lean)
 CUSTOM_STATUS = {
-    (ANY, 29): "proved (loc_fixpoint; round trip for the values the decoder accepts back; constructor gap at 90/180 degrees = known finding, refuted at the witness)",
+    (ANY, 29): "proved (loc_fixpoint; round trip for the values the decoder accepts back; constructor gap at 90/180 degrees repaired in the tree: loc_ctor_within_wire_range)",
     (ANY, 41): "proved (opt_fixpoint over every decodable option list; the as-shipped EDE variant is retained and refuted)",
     (1, 42): "proved (apl_fixpoint: the encoding is a fixed point; stored address modulo trailing zero octets)",
     (1, 64): "proved (svcb_fixpoint)",
@@ -1287,7 +1287,14 @@ for c, t, w, o in req["samples"]:
     else:
         row.append("-")
     samples.append(row)
-print(json.dumps({"classes": classes, "samples": samples, "extra": extra}))
+late = []
+for c, t in req.get("late", []):
+    try:
+        k = dns.rdata.get_rdata_class(dns.rdataclass.RdataClass.make(c), dns.rdatatype.RdataType.make(t))
+        late.append(cname(k))
+    except Exception as e:
+        late.append("ERR:" + type(e).__name__)
+print(json.dumps({"classes": classes, "samples": samples, "extra": extra, "late": late}))
 """
 REGISTER_EXPECTED = [
     "RdatatypeExists", "RdatatypeExists", "RdatatypeExists", "RdatatypeExists",
@@ -1323,10 +1330,10 @@ def codec_line(name):
     return name
 
 
-def run_dispatch(mode, pairs, samples):
+def run_dispatch(mode, pairs, samples, late=()):
     from harness.core import REPO
 
-    req = {"repo": REPO, "mode": mode, "pairs": pairs, "samples": samples}
+    req = {"repo": REPO, "mode": mode, "pairs": pairs, "samples": samples, "late": list(late)}
     p = subprocess.run([sys.executable, "-c", DISPATCH_SCRIPT], input=json.dumps(req).encode(), capture_output=True, timeout=300)
     if p.returncode != 0:
         return None, p.stderr.decode()[-600:]
@@ -1335,15 +1342,29 @@ def run_dispatch(mode, pairs, samples):
 
 def eval_dispatch(ctx: Ctx, case: dict):
     mode, pairs, samples = case["mode"], case["pairs"], case["samples"]
+    late = case.get("late", [])
     rep = {"kind": "dispatch", "case": case}
-    res, err = run_dispatch(mode, pairs, samples)
+    res, err = run_dispatch(mode, pairs, samples, late)
     if res is None:
         ctx.fail(f"C02/dispatch/{mode}/crash", f"dispatch probe in a fresh interpreter failed in mode {mode}: {err}", rep)
         return
     ctx.count("dispatch.mode." + mode)
-    for (c, t), name in zip(pairs, res["classes"]):
+    # trigger class of a recorded defect: a lookup in class ANY (255) of a type whose module is class specific caches the
+    # generic fallback in the class-independent slot, and every later lookup of that type gets GenericRdata
+    shadowed = set()
+    KNOWN_SHADOW = "C02/dispatch/generic-after-class-ANY-lookup-of-class-specific-type"
+    for (c, t), name in zip(list(pairs) + list(late), res["classes"] + res.get("late", [])):
         one = {"kind": "dispatch", "mode": mode, "pairs": [[c, t]], "samples": []}
         line = codec_line(name)
+        e0 = expected_codec(c, t)
+        if t in shadowed and e0 is not None and e0[0] != ANY and line == "g GENERIC":
+            prior = [[255, t], [c, t]]
+            ctx.fail(KNOWN_SHADOW, f"get_rdata_class({c}, {t}) returns GenericRdata once get_rdata_class(ANY, {t}) has been called "
+                     f"(the generic fallback is cached under (ANY, {t}), which is also the class-independent slot)",
+                     {"kind": "dispatch", "case": {"kind": "dispatch", "mode": mode, "pairs": prior, "samples": []}})
+            continue
+        if c == 255 and e0 is None and (expected_codec(1, t) is not None or expected_codec(3, t) is not None):
+            shadowed.add(t)
         if not (mode == "register" and t in (65280, 65281)):
             ctx.corr(f"c02.dispatch {c} {t}", line, one)
         exp = expected_codec(c, t)
@@ -1358,9 +1379,16 @@ def eval_dispatch(ctx: Ctx, case: dict):
             ctx.fail(f"C02/dispatch/{mode}/wrong-codec/{'generic' if exp is None else str(exp[0]) + '-' + str(exp[1])}",
                      f"get_rdata_class({c}, {t}) in mode {mode} chose {name}; the module tree says "
                      f"{'GenericRdata' if exp is None else 'dns/rdtypes/' + {255: 'ANY', 1: 'IN', 3: 'CH'}.get(exp[0], str(exp[0]))}", {"kind": "dispatch", "case": one})
+    shadowed_before_samples = set(t for (c, t) in pairs if c == 255 and expected_codec(c, t) is None
+                                  and (expected_codec(1, t) is not None or expected_codec(3, t) is not None))
     for (c, t, w, o), row, exp_row in zip(samples, res["samples"], case.get("expect", [])):
         one = {"kind": "dispatch", "mode": mode, "pairs": [], "samples": [[c, t, w, o]], "expect": [exp_row]}
         ctx.count("dispatch.samples")
+        if t in shadowed_before_samples and row[0] == "dns.rdata:GenericRdata" and exp_row[0] != row[0]:
+            ctx.fail(KNOWN_SHADOW, f"from_wire({c}, {t}, {w}) builds a GenericRdata (not equal to the {exp_row[0]} it encodes) once "
+                     f"get_rdata_class(ANY, {t}) has been called", {"kind": "dispatch", "case": {
+                         "kind": "dispatch", "mode": mode, "pairs": [[255, t]], "samples": [[c, t, w, o]], "expect": [exp_row]}})
+            continue
         if row[0] != exp_row[0] or (row[3] not in ("-", exp_row[0])):
             ctx.fail(f"C02/dispatch/{mode}/wrong-codec-from_wire/{c}-{t}",
                      f"from_wire/from_text({c}, {t}, {w}) in mode {mode} built {row[0]} / {row[3]}, expected {exp_row[0]}", {"kind": "dispatch", "case": one})
@@ -1398,10 +1426,25 @@ def gen_dispatch(ctx: Ctx, rng):
                 expect.append([type(rd2).__module__ + ":" + type(rd2).__name__, rd2.to_digestable(env["origin"]).hex(), rd2.to_wire(origin=env["origin"]).hex()])
             except Exception:  # noqa: BLE001
                 continue
+    def late_pair(p):
+        c, t = p
+        return c == 255 and expected_codec(c, t) is None and (expected_codec(1, t) is not None or expected_codec(3, t) is not None)
+
+    late = [p for p in pairs if late_pair(p)]
+    pairs = [p for p in pairs if not late_pair(p)]
     for mode in DISPATCH_MODES:
-        case = {"kind": "dispatch", "mode": mode, "pairs": rng.shuffle(pairs), "samples": samples, "expect": expect}
+        case = {"kind": "dispatch", "mode": mode, "pairs": rng.shuffle(pairs), "samples": samples, "expect": expect,
+                "late": rng.shuffle(late)}
         ctx.case(("dispatch", mode, len(pairs)), sample=None)
         eval_dispatch(ctx, case)
+    # the order the probes above avoid: class ANY first, then the class that owns the module (recorded defect)
+    own = [k for k in impl if k[0] != ANY]
+    k = rng.choice(own)
+    idx = [i for i, sm in enumerate(samples) if sm[1] == k[1] and sm[0] == k[0]]
+    case = {"kind": "dispatch", "mode": "default", "pairs": [[255, k[1]], [k[0], k[1]]],
+            "samples": [samples[i] for i in idx], "expect": [expect[i] for i in idx]}
+    ctx.case(("dispatch", "class-any-first", k), sample=case)
+    eval_dispatch(ctx, case)
 
 
 def mkorigin(o):
@@ -1836,7 +1879,7 @@ def impl_of_op(op: str):
 
 LEVEL = {
     "text": "Lean 4 theorems over a schema language for RDATA codecs (executable model of dns/wirebase.Parser and of every dns/rdtypes/** to_wire/from_wire_parser pair incl. the constructors' validation): generic enc_dec and dec_fixpoint proved by induction on schemas, well-formedness of every table entry by decide, coverage of the implemented (class,type) list regenerated from the code. Tied to the code by a two-direction correspondence check on every implemented type plus a direct round-trip / fixed-point / exact-consumption oracle on all types and unknown type codes.",
-    "note": "Trusted: Lean kernel + propext/Classical.choice/Quot.sound; statements in lean/Props/C02.lean; the correspondence harness and its generators; harness/extract_C02.py. All 69 implemented types are proved: 64 plain schemas by the generic theorems (type_codec, with named instances and a concrete valid value for each irregular codec), LOC, OPT, APL, SVCB, HTTPS through their object-level views (loc_/opt_/apl_/svcb_fixpoint), and all_types_fixpoint / every_pair_fixpoint state the fixed-point clause for every table entry and every (class, type) pair. Recorded: LOC constructor accepts 90/180 degrees plus minutes (refuted at a witness); the EDE trailing-NUL defect is repaired in the tree, its as-shipped variant is retained in the model and refuted. Per-type status is in the evidence (per_type_status).",
+    "note": "Trusted: Lean kernel + propext/Classical.choice/Quot.sound; statements in lean/Props/C02.lean; the correspondence harness and its generators; harness/extract_C02.py. All 69 implemented types are proved: 64 plain schemas by the generic theorems (type_codec, with named instances and a concrete valid value for each irregular codec), LOC, OPT, APL, SVCB, HTTPS through their object-level views (loc_/opt_/apl_/svcb_fixpoint), and all_types_fixpoint / every_pair_fixpoint state the fixed-point clause for every table entry and every (class, type) pair. Dispatch (get_rdata_class for every class, also after load_all_types and register_type, probed in fresh interpreters) is tied to the table lookup (dispatch_any_class, dispatch_own_class). Recorded: a class-ANY lookup of a class-specific type poisons the class-independent cache slot (known finding). Repaired in the tree: LOC 90/180 degrees plus minutes, EDE trailing NULs (as-shipped variant retained in the model and refuted). Per-type status is in the evidence (per_type_status).",
     "technique": "Lean 4 proof (induction over a deep-embedded schema language, finite table by decide) + model-vs-implementation correspondence",
     "design_ref": "DESIGN.md §7 C02",
 }
